@@ -185,6 +185,9 @@ def _isws(zc):
 
 def _int(*a, **kw):
     """int(<bytes>, 16) for short byte strings with symbolic content; everything else -> stock model."""
+    if len(a) >= 1 and type(a[0]) is str:
+        from engine.chplugin import semantic_text
+        a = (semantic_text(a[0]),) + tuple(a[1:])
     if len(a) == 2 and not kw:
         val, base = a
         with NoTracing():
@@ -638,6 +641,8 @@ def _struct_pack(fmt, *args):
     everything else -> CrossHair's struct.pack model."""
     import struct
     import re
+    from engine.chplugin import semantic_text
+    fmt = semantic_text(fmt)
     with NoTracing():
         concrete_fmt = isinstance(fmt, str)
     if concrete_fmt and len(args) == 1:
@@ -668,6 +673,8 @@ def _struct_unpack(fmt, data):
     """struct.unpack layer: CPython raises struct.error unless the buffer has exactly calcsize(fmt) bytes; that check is
     made here explicitly (the buffer length is concrete or one fork), then CrossHair's model does the conversion"""
     import struct
+    from engine.chplugin import semantic_text
+    fmt = semantic_text(fmt)
     with NoTracing():
         concrete_fmt = isinstance(fmt, str)
     if concrete_fmt:
